@@ -245,6 +245,15 @@ void do_exact(Ctx<W> &x, const std::string &variant) {
             std::cout << "\n";
         }
 #endif
+#ifdef PARMCB_VERIF
+    if (x.kind == "exactf")          // inexact weights: only the combinatorial part of each search (phase, branch, source, hidden set)
+        for (auto &ev : events) {
+            std::cout << "hs " << ev.phase << " " << (ev.hidden_branch ? 1 : 0) << " " << ev.source << " - " << (ev.found ? 1 : 0) << " - "
+                      << (ev.empty_signed_set ? 1 : 0);
+            for (auto h : ev.hidden) std::cout << " " << h;
+            std::cout << "\n";
+        }
+#endif
     for (auto &c : cycles) x.print_cycle("cycle", c);
     std::cout << "ret " << x.scaled(ret) << " " << (x.exact(ret) ? 1 : 0) << "\n";
     { char buf[64]; snprintf(buf, sizeof buf, "%.17g", (double) ret); std::cout << "retf " << buf << "\n"; }
@@ -270,6 +279,28 @@ void do_trees(Ctx<W> &x) {
     }
 }
 
+
+// one tree only (large graphs): labels of the tree rooted at the given source, and the number of candidates it offers
+template<class W>
+void do_tree1(Ctx<W> &x, std::size_t s) {
+    typedef typename Ctx<W>::Graph Graph; typedef typename Ctx<W>::Edge Edge;
+    typedef typename property_map<Graph, edge_weight_t>::type WM;
+    typedef typename property_map<Graph, vertex_index_t>::type IM;
+    WM wm = get(edge_weight, x.g);
+    IM im = get(vertex_index, x.g);
+    parmcb::SPTree<Graph, WM> t(0, x.g, im, wm, s);
+    std::cout << "tree " << s << "\n";
+    std::cout << "dist";
+    for (std::size_t v = 0; v < x.n; v++) { auto nd = t.node(v); if (nd) std::cout << " " << x.scaled(nd->weight()); else std::cout << " -"; }
+    std::cout << "\npred";
+    for (std::size_t v = 0; v < x.n; v++) { auto nd = t.node(v); if (nd && nd->has_pred()) std::cout << " " << x.id(nd->pred()); else std::cout << " -"; }
+    std::cout << "\nfirst";
+    for (std::size_t v = 0; v < x.n; v++) std::cout << " " << t.first(v);
+    std::cout << "\n";
+    auto cands = t.create_candidate_cycles();
+    std::cout << "ncand " << cands.size() << "\n";
+    std::cout << "cedges"; for (auto &c : cands) std::cout << " " << x.id(c.edge()); std::cout << "\n";
+}
 
 // C09: labels computed in DOUBLE arithmetic on arbitrary double weights, printed exactly (hex floats): the lexicographic
 // shortest-path tree of every source (SPTree) and the labels of parmcb::dijkstra; plus the plain accumulation of all weights
@@ -464,6 +495,7 @@ void run_case(const CaseIn &c) {
     else if (c.kind == "exact" || c.kind == "exactf") { shim_begin(c, 3); do_exact(x, c.args.at(2)); }
     else if (c.kind == "trees") do_trees(x);
     else if (c.kind == "ftrees") do_ftrees(x);
+    else if (c.kind == "tree1") do_tree1(x, std::stoul(c.args.at(2)));
     else if (c.kind == "cands") do_cands(x, c.args.at(2));
     else if (c.kind == "spanner") do_spanner(x, std::stoul(c.args.at(2)));
     else if (c.kind == "approx") { shim_begin(c, 4); do_approx_dispatch(x, c); }
